@@ -21,7 +21,8 @@ Class ==
   ELSE IF ~inexact THEN "exact"
   ELSE "plain"
 Rare == Class \in {"cancel-zero", "cancel-deep", "cancel-one", "tie"} \/ branch[1] \in {"ls-far", "sl-far"}
-Sampled == Salt % Stride = 0 \/ (Rare /\ Salt % RareStride = 0)
+\* the harness replays operands only: one case per operand pair (the digits_ub slack is explored by the model, not by the replay)
+Sampled == dub = 0 /\ (Salt % Stride = 0 \/ (Rare /\ Salt % RareStride = 0))
 Case ==
   [op |-> IF rsgn = 1 THEN "add" ELSE "sub", base |-> b, mode |-> mode, prec |-> p,
    a |-> [sig |-> ls, exp |-> le], b |-> [sig |-> rs, exp |-> re],
